@@ -3086,8 +3086,11 @@ class Entity(MutableMapping[str, str]):
         key = key.casefold()
         for k in self._keys:
             if k.casefold() == key:
-                # TODO: B909 bug?
-                return self._keys.pop(k)
+                value = self._keys[k]
+                # Delete through __delitem__, so by_class/by_target stay in sync
+                # and the classname cannot be removed.
+                del self[k]
+                return value
         return default
 
     def clear(self) -> None:
